@@ -10,6 +10,32 @@ package basicauth
 //@ func GetHtpasswdMatcher
 //@   ensures [lock_balance] held(htpasswordsMu) == old(held(htpasswordsMu))
 
+//@ unit htpasswd_cache props=C03 filter=`basicauth\.GetHtpasswdMatcher$`
+//@ // The user table a site authenticates against is the one loaded from ITS password file: the process-wide cache is keyed
+//@ // by the root-joined path, the file opened is that same path, and the matcher returned comes from that entry.
+//@ spec openedName(t int) string
+//@ ghost opens int
+//@ extern path/filepath.Join
+//@   pure
+//@ extern os.Open
+//@   modifies ghost:opens
+//@   ensures opens == old(opens) + 1 && openedName(old(opens)) == name
+//@   ensures (result1 == nil) == (result0 != nil)
+//@ extern (*os.File).Close
+//@ extern (*os.File).Name
+//@ extern fmt.Errorf
+//@   ensures result != nil
+//@ func parseHtpasswd
+//@   modifies MV:map[string]github.com/tmpim/casket/caskethttp/basicauth.PasswordMatcher, MD:map[string]github.com/tmpim/casket/caskethttp/basicauth.PasswordMatcher
+//@   ensures [only_the_given_table] unchanged_except("map:map[string]github.com/tmpim/casket/caskethttp/basicauth.PasswordMatcher", pm)
+//@ define key() string = filepath.Join(siteRoot, old(filename))
+//@ func GetHtpasswdMatcher
+//@   modifies G:htpasswords, MV:map[string]map[string]github.com/tmpim/casket/caskethttp/basicauth.PasswordMatcher, MD:map[string]map[string]github.com/tmpim/casket/caskethttp/basicauth.PasswordMatcher, MV:map[string]github.com/tmpim/casket/caskethttp/basicauth.PasswordMatcher, MD:map[string]github.com/tmpim/casket/caskethttp/basicauth.PasswordMatcher, ghost:opens, ghost:held
+//@   ensures [cached_under_joined_path] result1 == nil ==> (htpasswords != nil && has(htpasswords, key()) && htpasswords[key()] != nil)
+//@   ensures [matcher_from_this_files_table] result1 == nil ==> result0 == htpasswords[key()][username]
+//@   ensures [loads_the_joined_path] opens == old(opens) || (opens == old(opens) + 1 && openedName(old(opens)) == key())
+//@   ensures [other_entries_kept] forallT(k, string, (k != key() && old(htpasswords != nil && has(htpasswords, k))) ==> (has(htpasswords, k) && htpasswords[k] == old(htpasswords[k])))
+
 //@ unit basicauth_handler props=C03,C12,C19 filter=`BasicAuth\)\.ServeHTTP$`
 //@ ghost calledNext int
 
